@@ -126,6 +126,27 @@ def run_profile(run, workdir, model_ok):
         res["monitor"] = {"findings": [], "commands": 0, "stats": {"kinds": {}}, "samples": []}
     else:
         res["monitor"] = json.load(open(os.path.join(workdir, "monitor.json")))
+    if run.get("second_process"):
+        # the same profile again in another process with another scheduler width, time zone and start time: every
+        # application hash of every committed height must be the same (C09)
+        wd2 = workdir + "-p2"
+        os.makedirs(wd2, exist_ok=True)
+        env2 = dict(env, GOMAXPROCS="1", TZ="Asia/Tokyo", GOGC="20")
+        cmd2 = [c if c != workdir else wd2 for c in cmd]
+        rc2, out2 = sh(cmd2, env=env2, timeout=run.get("timeout", 3000))
+        h1 = open(os.path.join(workdir, "hashes.txt")).read() if os.path.exists(os.path.join(workdir, "hashes.txt")) else ""
+        h2 = open(os.path.join(wd2, "hashes.txt")).read() if os.path.exists(os.path.join(wd2, "hashes.txt")) else None
+        kinds = res["monitor"].setdefault("stats", {}).setdefault("kinds", {})
+        kinds["second-process-heights-compared"] = len(h1.splitlines())
+        if rc2 != 0 or h2 is None:
+            res["monitor"]["findings"] = (res["monitor"].get("findings") or []) + [{"clause": "C09-second-process", "detail": "the second process failed: " + out2[-800:], "cmd": " ".join(cmd2)}]
+        elif h1 != h2:
+            l1, l2 = h1.splitlines(), h2.splitlines()
+            first = next((i for i in range(min(len(l1), len(l2))) if l1[i] != l2[i]), min(len(l1), len(l2)))
+            res["monitor"]["findings"] = (res["monitor"].get("findings") or []) + [{
+                "clause": "C09-diverge", "detail": "two processes (GOMAXPROCS 16 / 1, different TZ and start time) computed different application hashes: history, height, hash = %s vs %s" % (l1[first:first + 1], l2[first:first + 1]),
+                "cmd": "re-run: " + " ".join(cmd) + "  and  GOMAXPROCS=1 TZ=Asia/Tokyo " + " ".join(cmd2)}]
+        shutil.rmtree(wd2, ignore_errors=True)
     if run.get("race"):
         res["monitor"]["findings"] = (res["monitor"].get("findings") or []) + race_findings
         res["monitor"].setdefault("stats", {}).setdefault("kinds", {}).update(race_stats)
@@ -279,52 +300,61 @@ def run_check(spec, tier):
                 except BuildError as e:
                     broken.append({"what": "build: " + e.stage, "log": e.log[-3000:]})
                     runs = [r for r in runs if not r.get("race")]
+            enlarged = False
             if broken and tier == "quick":
                 # search harder for a failing input: four times the quick workload (bounded, so that a broken tie
                 # is reported within minutes; the thorough tier searches at full size)
                 runs = [dict(r, n=(r["n"] * 4 if r["n"] > 2 else r["n"] + 1)) for r in runs]
-            for i, run in enumerate(runs):
-                wd = os.path.join(work, "run%d" % i)
-                r = run_profile(run, wd, model_ok)
-                if "harness_error" in r:
-                    broken.append({"what": "harness profile %s failed to run" % run["profile"], "log": r["harness_error"]})
+                enlarged = True
+            def do_runs(runs, tag):
+                for i, run in enumerate(runs):
+                    wd = os.path.join(work, "run%s%d" % (tag, i))
+                    r = run_profile(run, wd, model_ok)
+                    if "harness_error" in r:
+                        broken.append({"what": "harness profile %s failed to run" % run["profile"], "log": r["harness_error"]})
+                        runs_out.append(r)
+                        continue
+                    findings = r["monitor"].get("findings") or []
+                    # a monitor clause named after another claimed property is that property's to report
+                    from .props import PROPS as _P
+                    findings = [f for f in findings
+                                if not (re.match(r"C\d\d-", str(f.get("clause", ""))) and f["clause"][:3] != prop)]
+                    new_findings = []
+                    for f in findings:
+                        e = match_known(prop, f, known)
+                        if e:
+                            line = "KNOWN-FINDING: property=%s %s" % (prop, e["what"])
+                            if line not in known_lines:
+                                known_lines.append(line)
+                        else:
+                            new_findings.append(f)
+                    for f in new_findings[:5]:
+                        path = write_replay(prop, "monitor", {"clause": f.get("clause"), "detail": f.get("detail"),
+                                                              "history": f.get("history") or [f.get("cmd")],
+                                                              "profile": run["profile"], "seed": run["seed"],
+                                                              "how": "bin/check replay <this file> re-executes the history on the real code"})
+                        violations.append((path, False))
+                    if r.get("model_error_skip") or run.get("nomodel"):
+                        pass
+                    elif model_ok and "model_error" not in r:
+                        n, mism, hist = diff_observables(wd, spec.get("project"))
+                        r["compared"] = n
+                        r["mismatches"] = len(mism)
+                        if mism:
+                            # a disagreement explained by a known finding is not reported again
+                            unexplained = [m for m in mism if not match_known(prop, dict(m, clause="correspondence"), known)]
+                            if unexplained:
+                                broken.append({"what": "correspondence %s: model and implementation disagree" % run["profile"],
+                                               "first": unexplained[:5], "workdir": wd})
+                    elif "model_error" in r:
+                        broken.append({"what": "extracted model failed on the history", "log": r["model_error"]})
                     runs_out.append(r)
-                    continue
-                findings = r["monitor"].get("findings") or []
-                # a monitor clause named after another claimed property is that property's to report
-                from .props import PROPS as _P
-                findings = [f for f in findings
-                            if not (re.match(r"C\d\d-", str(f.get("clause", ""))) and f["clause"][:3] != prop)]
-                new_findings = []
-                for f in findings:
-                    e = match_known(prop, f, known)
-                    if e:
-                        line = "KNOWN-FINDING: property=%s %s" % (prop, e["what"])
-                        if line not in known_lines:
-                            known_lines.append(line)
-                    else:
-                        new_findings.append(f)
-                for f in new_findings[:5]:
-                    path = write_replay(prop, "monitor", {"clause": f.get("clause"), "detail": f.get("detail"),
-                                                          "history": f.get("history") or [f.get("cmd")],
-                                                          "profile": run["profile"], "seed": run["seed"],
-                                                          "how": "bin/check replay <this file> re-executes the history on the real code"})
-                    violations.append((path, False))
-                if r.get("model_error_skip") or run.get("nomodel"):
-                    pass
-                elif model_ok and "model_error" not in r:
-                    n, mism, hist = diff_observables(wd, spec.get("project"))
-                    r["compared"] = n
-                    r["mismatches"] = len(mism)
-                    if mism:
-                        # a disagreement explained by a known finding is not reported again
-                        unexplained = [m for m in mism if not match_known(prop, dict(m, clause="correspondence"), known)]
-                        if unexplained:
-                            broken.append({"what": "correspondence %s: model and implementation disagree" % run["profile"],
-                                           "first": unexplained[:5], "workdir": wd})
-                elif "model_error" in r:
-                    broken.append({"what": "extracted model failed on the history", "log": r["model_error"]})
-                runs_out.append(r)
+
+            do_runs(runs, "")
+            if broken and not violations and tier == "quick" and not enlarged:
+                # the correspondence (or a profile) broke at quick size but no monitor produced a failing input: look
+                # for one at four times the workload before reporting "no failing input found"
+                do_runs([dict(r, n=(r["n"] * 4 if r["n"] > 2 else r["n"] + 1)) for r in runs], "x")
         # ---- 5. outcome
         if broken and not violations:
             path = write_replay(prop, "broken", {"no_longer_checks": broken,
